@@ -1,6 +1,28 @@
 HOOK_COMMITS = ["6c92ace"]
 NOT_APPLICABLE = {}
 CHECKS = {
+ "C02": {
+  "text": "Coq: exhaustive reference decision procedure proven sound and complete w.r.t. 'a valid selection exists' (solvableb_correct); every verdict of the real solver is compared with it.",
+  "technique": "Coq-verified complete reference decision procedure vs implementation verdict; differential over seeded universes and activity parameters",
+  "note": "Theorem currently about the reference procedure; the trace-level theorem (learnt clauses entailed, level-1 conflict => unsolvable) is added later.",
+ },
+ "C04": {
+  "text": "Every generated universe is solved and every conflict rendered under catch_unwind, a poll watchdog and an output-size cap, debug and release. Partial: panic-freedom/termination theorems for the renderer model are added later.",
+  "technique": "panic/hang/size search on the implementation (model theorems for the renderer to follow)",
+  "note": "partial: outer CDCL loop termination is observed, not proved.",
+ },
+ "C05": {
+  "text": "Coq: support (reachability through requirement edges inside the solution) with a verified decision procedure incl. the saturation argument (supportedb_spec); applied to every returned solution.",
+  "technique": "Coq-verified support oracle applied to implementation outputs",
+ },
+ "C07": {
+  "text": "Coq: greedy_ok spec and verified checker (greedy_okb_spec, greedy_sound); whenever the verified procedure finds the greedy selection the solver's answer must equal it.",
+  "technique": "Coq-verified greedy-selection oracle vs implementation output on conflict-free universes",
+ },
+ "C08": {
+  "text": "Coq: verified reference search for a valid selection containing all first-ranked root candidates (solvable_with_spec); when it exists the returned solution must contain them.",
+  "technique": "Coq-verified reference search (solvable_with) vs implementation output",
+ },
  "C01": {
   "text": "Coq: validity spec (Spec.v) with a verified decision procedure (validb_spec); every solution the real solver returns on generated universes (debug+release, sync+yielding) is judged by the extracted procedure.",
   "technique": "Coq-verified validity oracle (validb <-> valid) applied to implementation outputs; differential over seeded universes",
